@@ -3,10 +3,10 @@ package main
 // Intrinsics: sync monitors, channels, maps, goroutines, range iteration.
 
 import (
-	"sort"
-	"os"
 	"fmt"
 	"go/types"
+	"os"
+	"sort"
 	"strings"
 
 	"golang.org/x/tools/go/ssa"
